@@ -697,6 +697,8 @@ def gen_kernels():
 # ==========================================================================================
 _FIELDS = {"x": "FX", "y": "FY", "original_x": "FOX", "original_y": "FOY", "reference_x": "FRX", "reference_y": "FRY",
            "x_scale": "FXS", "y_scale": "FYS"}
+_MUTATORS = {"sort", "fill", "resize", "put", "itemset", "partition", "byteswap", "setfield", "setflags",
+             "append", "extend", "insert", "pop", "remove", "clear", "reverse", "update"}
 
 
 @target("WeaverFootprint")
@@ -708,12 +710,11 @@ def gen_weaver_footprint():
             cls = node
     if cls is None:
         raise TranslateError("weaver.py: class Weaver not found")
-    rows = []
+    rows, direct, order = [], {}, []
     for fn in cls.body:
         if not isinstance(fn, ast.FunctionDef):
             continue
-        static = any(isinstance(d, ast.Name) and d.id == "staticmethod" for d in fn.decorator_list)
-        writes = []
+        writes, calls = [], []
         for st in ast.walk(fn):
             targets = []
             if isinstance(st, ast.Assign):
@@ -730,18 +731,242 @@ def gen_weaver_footprint():
                         if base.attr not in _FIELDS:
                             raise TranslateError("weaver.py:%d: assignment to unknown attribute self.%s in %s" % (st.lineno, base.attr, fn.name))
                         writes.append((st.lineno, e.col_offset, _FIELDS[base.attr]))
-            # in-place method calls on fields (self.y.sort(), np.add(..., out=self.y)) are outside the grammar
+            # in-place mutation of a field (self.y.sort(), np.add(..., out=self.y), setattr, __dict__) is outside the grammar
             if isinstance(st, ast.Call):
                 for k in st.keywords:
                     if k.arg == "out":
                         raise TranslateError("weaver.py:%d: out= argument in %s" % (st.lineno, fn.name))
+                f = st.func
+                if isinstance(f, ast.Name) and f.id in ("setattr", "delattr", "vars"):
+                    raise TranslateError("weaver.py:%d: %s() in %s" % (st.lineno, f.id, fn.name))
+                if isinstance(f, ast.Attribute):
+                    recv = f.value
+                    while isinstance(recv, ast.Subscript):
+                        recv = recv.value
+                    if isinstance(recv, ast.Attribute) and isinstance(recv.value, ast.Name) and recv.value.id == "self" \
+                            and recv.attr in _FIELDS and f.attr in _MUTATORS:
+                        raise TranslateError("weaver.py:%d: in-place %s on self.%s in %s" % (st.lineno, f.attr, recv.attr, fn.name))
+                    if isinstance(f.value, ast.Name) and f.value.id == "self":
+                        calls.append((st.lineno, st.col_offset, f.attr))
+            if isinstance(st, ast.Attribute) and isinstance(st.value, ast.Name) and st.value.id == "self" and st.attr == "__dict__":
+                raise TranslateError("weaver.py:%d: self.__dict__ in %s" % (st.lineno, fn.name))
+            if isinstance(st, ast.Delete):
+                raise TranslateError("weaver.py:%d: del in %s" % (st.lineno, fn.name))
         writes.sort()
-        rows.append("  (%s, [%s])" % (_cstr(fn.name), "; ".join(w[2] for w in writes)))
+        direct[fn.name] = (writes, calls)
+        order.append(fn.name)
+
+    def closure(name, seen):
+        """own assignments merged (by source position) with those of the self-methods it calls"""
+        if name in seen or name not in direct:
+            return []
+        ws, cs = direct[name]
+        items = [(l, c, [w]) for (l, c, w) in ws] + [(l, c, closure(callee, seen | {name})) for (l, c, callee) in cs]
+        items.sort(key=lambda it: (it[0], it[1]))
+        return [w for it in items for w in it[2]]
+
+    for name in order:
+        rows.append("  (%s, [%s])" % (_cstr(name), "; ".join(closure(name, frozenset()))))
     out = ["(** GENERATED by tools/translate.py from class Weaver in /repo/src/traffic_weaver/weaver.py — do not edit.",
            "    For every method: the fields of the object it assigns, in source order. *)",
-           "From Coq Require Import String List.", "Import ListNotations.", "Open Scope string_scope.", "",
-           "Inductive field := FX | FY | FOX | FOY | FRX | FRY | FXS | FYS.", "",
+           "From TW Require Export Lib.Glue.", "Open Scope string_scope.", "",
            "Definition method_writes : list (string * list field) := [\n" + ";\n".join(rows) + "\n].\n"]
+    return "\n".join(out)
+
+
+
+# ==========================================================================================
+# weaver.py -> Gen/WeaverGlue.v : the bodies of the Weaver methods as terms of the glue language of Lib/Glue.v
+# ==========================================================================================
+_GLUE_SKIP = {"from_2d_array", "from_dataframe", "from_csv"}   # static constructors (modelled by Weaver.from_2d; pandas/csv not modelled)
+_GLUE_BINOPS = {ast.Add: "+", ast.Sub: "-", ast.Mult: "*", ast.Div: "/"}
+_GLUE_CMPOPS = {ast.Lt: "<", ast.Gt: ">", ast.LtE: "<=", ast.GtE: ">=", ast.Eq: "==", ast.NotEq: "!=", ast.Is: "is", ast.IsNot: "isnot"}
+
+
+def _glist(items):
+    return "[" + "; ".join(items) + "]"
+
+
+def _dotted(node):
+    if isinstance(node, ast.Name):
+        return node.id
+    if isinstance(node, ast.Attribute):
+        b = _dotted(node.value)
+        return None if b is None else b + "." + node.attr
+    return None
+
+
+def _gexpr(e, where):
+    def rec(x):
+        return _gexpr(x, where)
+    if isinstance(e, ast.Attribute) and isinstance(e.value, ast.Name) and e.value.id == "self":
+        if e.attr not in _FIELDS:
+            raise TranslateError("%s: unknown attribute self.%s" % (where, e.attr))
+        return "(GSelf %s)" % _FIELDS[e.attr]
+    if isinstance(e, ast.Name):
+        return "(GVar %s)" % _cstr(e.id)
+    if isinstance(e, ast.Constant):
+        if e.value is None:
+            return "GNone"
+        if isinstance(e.value, bool):
+            return "(GBoolC %s)" % ("true" if e.value else "false")
+        if isinstance(e.value, int):
+            return "(GInt (%d)%%Z)" % e.value
+        if isinstance(e.value, str):
+            return "(GStr %s)" % _cstr(e.value)
+        raise TranslateError("%s: constant %r outside the glue grammar" % (where, e.value))
+    if isinstance(e, ast.UnaryOp) and isinstance(e.op, ast.USub) and isinstance(e.operand, ast.Constant) and isinstance(e.operand.value, int):
+        return "(GInt (%d)%%Z)" % (-e.operand.value)
+    if isinstance(e, ast.Tuple):
+        return "(GTuple %s)" % _glist(rec(x) for x in e.elts)
+    if isinstance(e, ast.BinOp) and type(e.op) in _GLUE_BINOPS:
+        return "(GBin %s %s %s)" % (_cstr(_GLUE_BINOPS[type(e.op)]), rec(e.left), rec(e.right))
+    if isinstance(e, ast.Compare) and len(e.ops) == 1 and type(e.ops[0]) in _GLUE_CMPOPS:
+        return "(GBin %s %s %s)" % (_cstr(_GLUE_CMPOPS[type(e.ops[0])]), rec(e.left), rec(e.comparators[0]))
+    if isinstance(e, ast.BoolOp) and type(e.op) in (ast.And, ast.Or):
+        op = "and" if isinstance(e.op, ast.And) else "or"
+        acc = rec(e.values[-1])
+        for v in reversed(e.values[:-1]):
+            acc = "(GBin %s %s %s)" % (_cstr(op), rec(v), acc)
+        return acc
+    if isinstance(e, ast.Subscript):
+        s = e.slice
+        if isinstance(s, ast.Slice):
+            parts = [rec(x) if x is not None else "GNone" for x in (s.lower, s.upper, s.step)]
+            return "(GSlice %s %s %s %s)" % (rec(e.value), parts[0], parts[1], parts[2])
+        return "(GIdx %s %s)" % (rec(e.value), rec(s))
+    if isinstance(e, ast.Call):
+        args = []
+        for a in e.args:
+            if isinstance(a, ast.Starred):
+                raise TranslateError("%s: *args outside the glue grammar" % where)
+            args.append(rec(a))
+        kws = []
+        for k in e.keywords:
+            kws.append("(%s, %s)" % (_cstr(k.arg if k.arg is not None else "**"), rec(k.value)))
+        name = _dotted(e.func)
+        if name is not None and not name.startswith("self."):
+            head = name.split(".")[0]
+            if "." in name and head not in ("np",):
+                # method call on a local / parameter: x.copy()
+                return "(GMeth %s %s %s)" % (rec(e.func.value), _cstr(e.func.attr), _glist(args)) if not kws else _glue_fail(where, e)
+            return "(GCall %s %s %s)" % (_cstr(name), _glist(args), _glist(kws))
+        if isinstance(e.func, ast.Attribute):
+            if kws:
+                _glue_fail(where, e)
+            return "(GMeth %s %s %s)" % (rec(e.func.value), _cstr(e.func.attr), _glist(args))
+        if isinstance(e.func, ast.Call):
+            if kws:
+                _glue_fail(where, e)
+            return "(GApply %s %s)" % (rec(e.func), _glist(args))
+    _glue_fail(where, e)
+
+
+def _glue_fail(where, e):
+    raise TranslateError("%s: expression outside the glue grammar: %s" % (where, ast.unparse(e)[:100]))
+
+
+def _glhs(t, where):
+    if isinstance(t, ast.Attribute) and isinstance(t.value, ast.Name) and t.value.id == "self":
+        if t.attr not in _FIELDS:
+            raise TranslateError("%s: assignment to unknown attribute self.%s" % (where, t.attr))
+        return "(LSelf %s)" % _FIELDS[t.attr]
+    if isinstance(t, ast.Name):
+        return "(LVar %s)" % _cstr(t.id)
+    raise TranslateError("%s: assignment target outside the glue grammar: %s" % (where, ast.unparse(t)[:80]))
+
+
+def _gstmts(body, where):
+    out = []
+    for st in body:
+        w = "%s:%d" % (where, st.lineno)
+        if isinstance(st, ast.Expr) and isinstance(st.value, ast.Constant) and isinstance(st.value.value, str):
+            continue   # docstring
+        if isinstance(st, ast.Assign) and len(st.targets) == 1:
+            t = st.targets[0]
+            lhs = [_glhs(x, w) for x in t.elts] if isinstance(t, ast.Tuple) else [_glhs(t, w)]
+            out.append("SAssign %s %s" % (_glist(lhs), _gexpr(st.value, w)))
+        elif isinstance(st, ast.If):
+            out.append("SIf %s %s %s" % (_gexpr(st.test, w), _gstmts(st.body, where), _gstmts(st.orelse, where)))
+        elif isinstance(st, ast.Raise) and isinstance(st.exc, ast.Call) and isinstance(st.exc.func, ast.Name) and st.cause is None:
+            out.append("SRaise %s" % _cstr(st.exc.func.id))
+        elif isinstance(st, ast.Return) and st.value is not None:
+            out.append("SReturn %s" % _gexpr(st.value, w))
+        else:
+            raise TranslateError("%s: statement outside the glue grammar: %s" % (w, ast.unparse(st)[:100]))
+    return _glist(out)
+
+
+@target("WeaverGlue")
+def gen_weaver_glue():
+    tree = ast.parse(_src("weaver.py"))
+    cls = None
+    imports = []
+    for node in tree.body:
+        if isinstance(node, ast.ClassDef) and node.name == "Weaver" and cls is None:
+            cls = node
+        elif isinstance(node, ast.Expr) and isinstance(node.value, ast.Constant) and isinstance(node.value.value, str):
+            continue
+        elif isinstance(node, ast.Import):
+            for al in node.names:
+                imports.append(("", al.name, al.asname or al.name))
+        elif isinstance(node, ast.ImportFrom):
+            for al in node.names:
+                if al.name == "*":
+                    raise TranslateError("weaver.py:%d: star import" % node.lineno)
+                imports.append(("." * node.level + (node.module or ""), al.name, al.asname or al.name))
+        else:
+            # a module-level definition could shadow an imported name
+            raise TranslateError("weaver.py:%d: module-level statement outside the glue grammar: %s" % (node.lineno, ast.unparse(node)[:80].split("\n")[0]))
+    if cls is None:
+        raise TranslateError("weaver.py: class Weaver not found")
+    if cls.bases or cls.keywords or cls.decorator_list:
+        raise TranslateError("weaver.py: class Weaver has bases/decorators (outside the glue grammar)")
+    rows = []
+    for fn in cls.body:
+        if isinstance(fn, ast.Expr) and isinstance(fn.value, ast.Constant):
+            continue
+        if not isinstance(fn, ast.FunctionDef):
+            raise TranslateError("weaver.py:%d: class-level statement outside the glue grammar" % fn.lineno)
+        static = any(isinstance(d, ast.Name) and d.id == "staticmethod" for d in fn.decorator_list)
+        if fn.name in _GLUE_SKIP:
+            if not static:
+                raise TranslateError("weaver.py: %s is expected to be a staticmethod" % fn.name)
+            continue
+        if fn.decorator_list:
+            raise TranslateError("weaver.py: decorator on %s" % fn.name)
+        a = fn.args
+        if a.vararg or a.kwonlyargs or a.posonlyargs:
+            raise TranslateError("weaver.py: parameter kinds of %s outside the glue grammar" % fn.name)
+        names = [x.arg for x in a.args]
+        if not names or names[0] != "self":
+            raise TranslateError("weaver.py: %s has no self" % fn.name)
+        defaults = [None] * (len(names) - len(a.defaults)) + list(a.defaults)
+        params = []
+        for nm, d in zip(names[1:], defaults[1:]):
+            params.append("(%s, %s)" % (_cstr(nm), "None" if d is None else "Some %s" % _gexpr(d, "weaver.py:%s default" % fn.name)))
+        if a.kwarg is not None:
+            params.append("(%s, None)" % _cstr("**" + a.kwarg.arg))
+        # a parameter or local that rebinds an imported name (or builtin len) would change what a call means
+        bound = {b for _, _, b in imports} | {"len", "self"}
+        local_names = set(names[1:]) | ({a.kwarg.arg} if a.kwarg is not None else set())
+        for sub in (n for st in fn.body for n in ast.walk(st)):
+            if isinstance(sub, ast.Name) and isinstance(sub.ctx, (ast.Store, ast.Del)):
+                local_names.add(sub.id)
+            if isinstance(sub, (ast.FunctionDef, ast.Lambda, ast.ClassDef, ast.Import, ast.ImportFrom, ast.Global, ast.Nonlocal,
+                                ast.With, ast.Try, ast.For, ast.While, ast.NamedExpr, ast.ListComp, ast.GeneratorExp)) and sub is not fn:
+                raise TranslateError("weaver.py:%d: %s in %s outside the glue grammar" % (sub.lineno, type(sub).__name__, fn.name))
+        clash = local_names & bound
+        if clash:
+            raise TranslateError("weaver.py: %s rebinds %s" % (fn.name, sorted(clash)))
+        rows.append("  (%s, (%s,\n     %s))" % (_cstr(fn.name), _glist(params), _gstmts(fn.body, "weaver.py:" + fn.name)))
+    out = ["(** GENERATED by tools/translate.py from class Weaver in /repo/src/traffic_weaver/weaver.py — do not edit.",
+           "    For every method: its parameters (with defaults) and its body in the glue language of Lib/Glue.v. *)",
+           "From TW Require Export Lib.Glue.", "Open Scope string_scope.", "",
+           "(** module-level imports: (module, imported name, bound name) — the only module-level statements besides the class *)",
+           "Definition weaver_imports : list (string * string * string) := [\n" +
+           ";\n".join("  (%s, %s, %s)" % (_cstr(a), _cstr(b), _cstr(c)) for a, b, c in imports) + "\n].\n",
+           "Definition weaver_methods : list (string * (list (string * option gexpr) * list gstmt)) := [\n" + ";\n".join(rows) + "\n].\n"]
     return "\n".join(out)
 
 
